@@ -32,6 +32,30 @@ S = {
  "C02_1": ("C02", "step.rs step_over_any: temporary breakpoints removed after the early returns", "a `next` interrupted by a signal or watchpoint", None, ""),
  "C02_2": ("C02", "breakpoint.rs new_watchpoint_companion: number always freshly allocated", "two watchpoints on locals of the same function", None, ""),
  "C02_3": ("C02", "mod.rs stepi: ecx_restore_frame() dropped", "stop at a breakpoint, select frame 1, stepi", None, ""),
+ "C01_1": ("C01", "breakpoint.rs Breakpoint::enable/disable: the whole 8-byte word is cached at enable and written back at disable", "two active breakpoints closer than 8 bytes (the neighbour's INT3 is wiped by every step-over)", None, ""),
+ "C01_2": ("C01", "step.rs step_over_breakpoint: early return before brkpt.enable() when the single step reports a signal/watchpoint", "a signal pending exactly when continuing from a breakpoint in a loop", None, ""),
+ "C01_3": ("C01", "tracer.rs apply_new_status TRAP_BRKPT: StopReason::Breakpoint(brkpt.pid, pc) instead of (pid, pc)", "a breakpoint reached by a non-main thread", None, ""),
+ "C07_1": ("C07", "value/mod.rs Value::index array arm: finds the item whose stored index equals i instead of position i", "index after a slice with non-zero left bound (arr[2..5][0])", None, ""),
+ "C07_2": ("C07", "value/mod.rs match_literal set arm: position+swap_remove replaced by any (matched literal not consumed)", "set literal with nested wildcards covering two items", None, ""),
+ "C07_3": ("C07", "parser/expression.rs literal(): int and float share a signed i64 sub-parser (-0 loses its sign)", "a float literal in (-1, 0), e.g. -0.5", None, ""),
+ "C10_1": ("C10", "tracer.rs Tracer::resume: pop_front() instead of front().copied() when checking for the next pending signal", "two threads in signal-delivery-stop at once", None, ""),
+ "C10_2": ("C10", "tracee.rs cont_stopped_ex: injected signal taken from Tracee::status instead of the queued request", "SIGUSR1 stop, step, SIGINT interrupts the step, continue", None, ""),
+ "C10_3": ("C10", "tracer.rs single_step: TRANSPARENT_SIGNALS checked where QUIET_SIGNALS was (rebased onto fix c8e7fb7)", "SIGINT arriving during stepi", None, ""),
+ "C11_1": ("C11", "mod.rs Drop for Debugger (external): thread list taken from the attach-time list instead of the tracer's live table", "attach, a thread spawned while being debugged, quit", None, ""),
+ "C11_2": ("C11", "breakpoint.rs disable_all_breakpoints: inherited user breakpoints keyed by Address::Relocated instead of the global address", "attach to an ASLR'd process, set a breakpoint, restart", None, ""),
+ "C11_3": ("C11", "mod.rs restart_debugee: kill-old-process condition !is_exited() became is_in_progress()", "restart before the first start (process created, not started)", None, ""),
+ "C12_1": ("C12", "session/mod.rs drain_events: queue emptied after the terminated check instead of before", "launch, termination, a late terminate-like request, launch again in one session", None, ""),
+ "C12_2": ("C12", "control.rs handle_next: Continued enqueued before step_over() (error arm leaves it queued)", "a failing `next` (before configurationDone / no debuggee)", None, ""),
+ "C12_3": ("C12", "init.rs handle_configuration_done: send_success hoisted above start_debugee_with_reason()", "configurationDone sent a second time", None, ""),
+ "C13_1": ("C13", "session/breakpoint.rs handle_set_breakpoints: previous set looked up with the client path instead of the target path", "a sourceMap in the launch arguments, then a second setBreakpoints for the file", None, ""),
+ "C13_2": ("C13", "breakpoint.rs remove_by_addr: dispatch on the address kind (Relocated never looks at the not-installed table)", "instruction breakpoint set and replaced before configurationDone", None, ""),
+ "C13_3": ("C13", "control.rs with_breakpoint_record_mut: addresses.contains(&addr) became first() == Some(&addr)", "function breakpoint with options on a generic function with several instantiations", None, ""),
+ "C17_1": ("C17", "utils.rs PathSearchIndex::get: ends_with replaced by reversed zip().all() (stops at the shorter side)", "a template with more leading components than a stored path", None, ""),
+ "C17_2": ("C17", "unit/parser.rs: function_name_index prefers DW_AT_name over the demangled linkage name", "a generic function or closure in the debuggee", None, ""),
+ "C17_3": ("C17", "symbol.rs SymbolTab::find: result sorted and deduplicated by address", "a regex matching two symbols at the same address (aliases, imported symbols)", None, ""),
+ "C18_1": ("C18", "registry.rs update_mappings: maps matched by file name only instead of the canonical path", "two different objects with the same basename mapped at once", None, ""),
+ "C18_2": ("C18", "breakpoint.rs refresh_deferred: a request failing with a non-NoSuitablePlace error is dropped", "a deferred breakpoint by address whose library is not mapped yet", None, ""),
+ "C18_3": ("C18", "breakpoint.rs try_into_brkpt: the two None arms merged (file-less template always resolved against the main executable)", "address breakpoint set before start pointing into a startup-linked shared library", None, ""),
 }
 def main():
     res = {}
